@@ -55,6 +55,7 @@ def cases(tier):
     yield dict(kind="lig-two", tier=tier)
     yield dict(kind="lig-unnamed", tier=tier)
     yield dict(kind="lig-mismatch", tier=tier)
+    yield dict(kind="lig-multires", tier=tier)
     yield dict(kind="split", tier=tier)
     yield dict(kind="split-run", tier=tier)
     yield dict(kind="split-reuse", tier=tier)
@@ -428,6 +429,40 @@ def check_lig_unnamed(case):
     return viols, evals, keys
 
 
+def check_lig_multires(case):
+    """a ligand molecule with two residues (both selected by the ligand part): every ligand residue ends one step from the host residue"""
+    viols, evals, keys = [], 0, []
+    sysd = dict(SYS, types=["CH4", "CH2"], molecules=[("CH4", 1), ("CH2", 2)], kwargs=dict(nrewind=2, maxiter=5))
+    for hspec, hr, lspec, lm, lres in (("CH4#0-B#2", 1, "CH2#1", 1, [0, 1]), ("CH4#0-S#3", 2, "CH2#2-S", 2, [0, 1]), ("CH4#0-B#4", 3, "CH2#1-S#2", 1, [1]),
+                                       ("CH4-B#2", 1, "#2", 2, [0, 1])):
+        s2 = json.loads(json.dumps(sysd))
+        s2["kwargs"]["ligands"] = [[hspec, lspec]]
+        evals += 1
+        case1 = dict(kind="ligmr1", host=hspec, lig=lspec)
+        res = G.run_gen_coords(s2, Chooser([]))
+        if res["exc"] is not None:
+            viols.append(crash_violation(res["exc"], case1, assertion="ligand-spec-accepted", tags=["multi-residue-ligand"]))
+            continue
+        want_atoms = G.expand_atoms(s2)
+        atoms = res["gro"][0] if res["gro"] else []
+        if [(x[0], x[1], x[2]) for x in atoms] != [(w[2], w[3], w[4]) for w in want_atoms]:
+            viols.append(dict(assertion="molecule-list-unchanged", tags=["multi-residue-ligand"], message=f"-lig {hspec}:{lspec}: output atoms differ", case=case1, detail={}))
+            continue
+        pos = {}
+        for (mi, name, resid, resname, an), x in zip(want_atoms, atoms):
+            pos[(mi, resid - 1)] = np.array(x[3])
+        box = np.array(s2["box"])
+        hsize = G.DEFAULT_VOLUMES[["S", "B", "S", "B"][hr]]
+        for lr in lres:
+            step = (hsize + G.DEFAULT_VOLUMES["S"]) / 2.0
+            dist = np.linalg.norm(O.min_image(pos[(0, hr)] - pos[(lm, lr)], box))
+            if not abs(dist - step) <= 2e-3 and len(viols) < 20:
+                viols.append(dict(assertion="ligand-one-step-from-host", tags=["multi-residue-ligand"],
+                                  message=f"-lig {hspec}:{lspec}: residue {lr} of ligand molecule {lm} is {dist:.4f} nm from host residue {(0, hr)}, step {step}", case=case1, detail={}))
+        keys.append(f"ligmr:{hspec}:{lspec}")
+    return viols, evals, keys
+
+
 def check_lig_mismatch(case):
     """-lig parts whose molecule name and molecule index contradict each other name no molecule: the run must refuse them
     (or at least leave every molecule built as itself), on the host side and on the ligand side alike"""
@@ -646,7 +681,7 @@ def check_split_run(case):
     return viols, evals, keys
 
 
-FUNCS = {"split-reuse": check_split_reuse, "lig-mismatch": check_lig_mismatch, "lig-unnamed": check_lig_unnamed, "lig-two": check_lig_two, "tags-dup": check_tags_dup, "pairdir": check_pair_directives, "tags": check_tags, "tags-multi": check_tags_multi, "start": check_start, "lig": check_lig, "split": check_split,
+FUNCS = {"lig-multires": check_lig_multires, "split-reuse": check_split_reuse, "lig-mismatch": check_lig_mismatch, "lig-unnamed": check_lig_unnamed, "lig-two": check_lig_two, "tags-dup": check_tags_dup, "pairdir": check_pair_directives, "tags": check_tags, "tags-multi": check_tags_multi, "start": check_start, "lig": check_lig, "split": check_split,
          "split-run": check_split_run}
 
 
@@ -654,7 +689,7 @@ def run_case(case):
     kind = case["kind"]
     if kind not in FUNCS:
         # replay of single sub-cases is done by re-running the owning family (cheap) and filtering
-        fam = {"tags1": "tags", "tagsm1": "tags-multi", "pairdir1": "pairdir", "tagsdup1": "tags-dup", "lig2": "lig-two", "ligu1": "lig-unnamed", "ligm1": "lig-mismatch", "splitreuse1": "split-reuse", "start1": "start", "lig1": "lig", "split1": "split", "splitrun1": "split-run"}[kind]
+        fam = {"tags1": "tags", "tagsm1": "tags-multi", "pairdir1": "pairdir", "tagsdup1": "tags-dup", "lig2": "lig-two", "ligu1": "lig-unnamed", "ligm1": "lig-mismatch", "splitreuse1": "split-reuse", "ligmr1": "lig-multires", "start1": "start", "lig1": "lig", "split1": "split", "splitrun1": "split-run"}[kind]
         out = []
         for part in range(4 if fam == "lig" else 1):
             c = dict(kind=fam, tier="quick", part=part, directive="sphere" if case.get("key") != "rw_options" else "rw")
